@@ -16,11 +16,14 @@ One output line per input line.
                             escape through it) | 0 (output region free / unsafe fn) | err
   rows_c06                → falsifying rows of the C06 "doors" theorems with file:line, or `none`
                             (each entry starts with `<theorem>: <row name> :: `)
+  rows_c01d               → falsifying rows of the wrapper-delegation theorems
+                            (`<theorem>: <row> … @ file:line`), or `none`
   selfcheck               → 1 iff every generated key is the key of its string
 -/
 import HipVerif.Model.AutoTraitRows
 import HipVerif.Model.PubFns
 import HipVerif.Model.Doors
+import HipVerif.Model.Delegates
 
 open HipVerif.Model.AutoTrait
 open HipVerif.Model.PubFns
@@ -154,6 +157,27 @@ def rowsC06 : List String :=
     s!"unchecked_doors_listed: {decKey k} :: reviewed unsafe door no longer present"
   a ++ b ++ c ++ e
 
+def showNamed (xs : List (Nat × String)) : String := String.intercalate "," (xs.map (·.2))
+
+def rowsC01d : List String :=
+  let rs := HipVerif.Gen.Delegates.rows
+  let describe := fun (r : HipVerif.Model.Delegates.Row) =>
+    s!"targets=[{showNamed r.targets}] callees=[{showNamed r.callees}] ext=[{showNamed r.ext}] guards={r.guards.length} argsUnchanged={r.argsUnchanged} wraps={r.wraps} retyped=[{showNamed r.retyped}] mutSelf={r.mutSelf}"
+  let a := rs.filterMap fun r =>
+    if HipVerif.Model.Delegates.delegateOk r then none else
+      some s!"delegates_named_ok: {r.name} expected target `{decKey (HipVerif.Model.Delegates.expectedTarget r)}` with arguments unchanged; {describe r} @ {r.loc}"
+  let b := rs.filterMap fun r =>
+    if HipVerif.Model.Delegates.retypeOk r then none else
+      some s!"retyping_only_after_delegate_or_guard: {r.name} claims/mutates bytes without a guard, a validity-preserving typed delegate or a review; {describe r} @ {r.loc}"
+  let c := rs.filterMap fun r =>
+    if HipVerif.Model.Delegates.shapeReviewed r then none else
+      some s!"no_unreviewed_shapes: {r.name} is a composed/other fn that is not reviewed; {describe r} @ {r.loc}"
+  let d := HipVerif.Model.Delegates.staleReviewed.map fun k =>
+    s!"no_unreviewed_shapes: reviewed entry {decKey k} is no longer a composed/other row"
+  let e := HipVerif.Model.Delegates.uncoveredDriven.map fun x =>
+    s!"wrappers_covered: coredrive calls {x.2.2} on a wrapper that has no such row"
+  a ++ b ++ c ++ d ++ e
+
 def tiedAnswer (name : String) : String :=
   match HipVerif.Gen.PubFns.pubFns.find? (fun f => f.name == name) with
   | none => "err"
@@ -175,6 +199,7 @@ def answer (line : String) : String :=
   | ["rows_c05"] => join rowsC05
   | ["rows_c17"] => join rowsC17
   | ["rows_c06"] => join rowsC06
+  | ["rows_c01d"] => join rowsC01d
   | ["sites"] => join (HipVerif.Gen.PubFns.sites.map showSite)
   | ["unsafe_rows"] =>
     join ((HipVerif.Gen.PubFns.pubFns.filter mustBeUnsafe).map
@@ -185,7 +210,8 @@ def answer (line : String) : String :=
     | none => "err"
     | some f => if borrowViewFns.contains f.simpleKey || neverBorrowed.contains f.key then "1" else "0"
   | ["selfcheck"] =>
-    if keysOk HipVerif.Gen.PubFns.pubFns HipVerif.Gen.PubFns.sites && HipVerif.Model.Doors.doorKeysOk
+    if keysOk HipVerif.Gen.PubFns.pubFns HipVerif.Gen.PubFns.sites && HipVerif.Model.Doors.doorKeysOk &&
+        HipVerif.Model.Delegates.delegateKeysOk
     then "1" else "0"
   | _ => "err"
 
